@@ -236,10 +236,10 @@ func getWorld() (*world, error) {
 }
 
 type eeOpt struct {
-	ski      bool               // put a SubjectKeyIdentifier extension into the certificate
+	ski      bool                    // put a SubjectKeyIdentifier extension into the certificate
 	sigAlg   x509.SignatureAlgorithm // 0 = default of the issuer key
-	sameAs   *smx509.Certificate // impostor: copy subject, issuer choice and serial number of this certificate
-	reuseKey crypto.PrivateKey  // use this key instead of a fresh one
+	sameAs   *smx509.Certificate     // impostor: copy subject, issuer choice and serial number of this certificate
+	reuseKey crypto.PrivateKey       // use this key instead of a fresh one
 }
 
 // newEE creates an end entity of the given key kind below the given issuer. All
